@@ -42,6 +42,7 @@ def check_image(img, files):
 
 class C15(PropertyCheck):
     pid = "C15"
+    source_tables = ["PACK_CONSTS"]   # tables / constants regenerated from /repo's source (gen/srctables.py)
     release_too = True      # the C05 cases speak about both arithmetic profiles
     rule = ("streams: serialize (ordered maps of 0-40 files, body lengths around multiples of 32, empty bodies, lossless Shift-JIS names "
             "incl. prefixes of each other: image compared byte-exact with the extracted model, parse(serialize(x)) with x); layout "
@@ -102,7 +103,7 @@ class C15(PropertyCheck):
             cases.append(Case("packref %s %s" % (B(img), packlib.files_tokens(GAME_FILE_CONTENT)), "game-file"))
             cases.append(Case("packparse " + B(img), "game-file"))
         # ---- many files (implementation + oracle only)
-        for (n, bl) in ([(300, 1), (1000, 0)] if tier == "quick" else [(300, 1), (1000, 33), (65535, 0), (20000, 3)]):
+        for (n, bl) in ([(300, 1), (1000, 0), (32768, 0), (65535, 0)] if tier == "quick" else [(300, 1), (1000, 33), (65535, 0), (20000, 3)]):
             cases.append(Case("packbig %d %d" % (n, bl), "big"))
         # ---- (d) C05, pack part
         cases += packtotal.total_cases(rng, tier)
